@@ -68,7 +68,9 @@ theorem step_insert (cp : Cmp) (c : PCol) (own : List Nat) (v : Bytes) (h : ColI
     ∃ c' a, physWriteNew cp c v = .ok (c', a) ∧
       entryAt c' a = .ok (some (storedForm cp.cmp cp.threshold v)) ∧
       a ∉ own ∧ ColInv c' (a :: own) ∧ (∀ b ∈ own, entryAt c' b = entryAt c b) ∧
-      c'.rc = c.rc := by
+      c'.rc = c.rc ∧ a < 2 ^ 64 ∧
+      (∀ tier, (c'.tables tier).filled ≤ (c.tables tier).filled +
+        numParts (c.tables (newTier cp c v)) .noHash (storedForm cp.cmp cp.threshold v).1) := by
   have hτ := newTier_lt cp c v
   generalize hτe : newTier cp c v = τ at hτ hb
   generalize hsf : storedForm cp.cmp cp.threshold v = sf at hb
@@ -91,7 +93,15 @@ theorem step_insert (cp : Cmp) (c : PCol) (own : List Nat) (v : Bytes) (h : ColI
     omega
   have hτ256 : τ < 256 := by rw [NTABLES_eq] at hτ; exact hτ
   obtain ⟨ha1, ha2⟩ := addr_parts r.addr τ hra hτ256
-  refine ⟨c.setTbl τ r.table, Address.new r.addr τ, ?_, ?_, ?_, ?_, ?_, rfl⟩
+  refine ⟨c.setTbl τ r.table, Address.new r.addr τ, ?_, ?_, ?_, ?_, ?_, rfl, ?_, ?_⟩
+  rotate_right 2
+  · rw [Refine.address_new_eq r.addr τ hra hτ256]
+    have : (2:Nat) ^ 56 * 256 = 2 ^ 64 := by decide
+    omega
+  · intro tier
+    by_cases e : tier = τ
+    · subst e; rw [setTbl_same]; exact hfill
+    · rw [setTbl_other _ _ _ _ e]; omega
   · unfold physWriteNew
     simp only [hsf]
     have : tierOfLen c.rc .noHash sf.1.length = τ := by rw [← hτe, newTier, hsf]
@@ -282,14 +292,17 @@ theorem step_move (cp : Cmp) (c : PCol) (a : Nat) (own : List Nat) (v : Bytes)
     ∃ c' na, physWriteExisting cp c a v = .ok (c', some na) ∧
       entryAt c' na = .ok (some (storedForm cp.cmp cp.threshold v)) ∧
       na ∉ own ∧ ColInv c' (na :: own) ∧ (∀ b ∈ own, entryAt c' b = entryAt c b) ∧
-      c'.rc = c.rc := by
-  obtain ⟨c1, hr, hinv1, hfr1, hrc1, _, hoth⟩ := step_remove c a own h hb1
+      c'.rc = c.rc ∧ na < 2 ^ 64 ∧
+      (∀ tier, (c'.tables tier).filled ≤ (c.tables tier).filled +
+        numParts (c.tables (newTier cp c v)) .noHash (storedForm cp.cmp cp.threshold v).1) := by
+  obtain ⟨c1, hr, hinv1, hfr1, hrc1, hfl1, hoth⟩ := step_remove c a own h hb1
   have hnt : newTier cp c1 v = newTier cp c v := by unfold newTier; rw [hrc1]
   have htb : c1.tables (newTier cp c v) = c.tables (newTier cp c v) :=
     hoth _ (fun e => hne e.symm)
-  obtain ⟨c2, na, hw, hrd, hnew, hinv2, hfr2, hrc2⟩ :=
+  obtain ⟨c2, na, hw, hrd, hnew, hinv2, hfr2, hrc2, hlt2, hfl2⟩ :=
     step_insert cp c1 own v hinv1 (by rw [hnt, htb]; exact hb2)
-  refine ⟨c2, na, ?_, hrd, hnew, hinv2, fun b hb => (hfr2 b hb).trans (hfr1 b hb), hrc2.trans hrc1⟩
+  refine ⟨c2, na, ?_, hrd, hnew, hinv2, fun b hb => (hfr2 b hb).trans (hfr1 b hb), hrc2.trans hrc1,
+    hlt2, fun tier => by have := hfl2 tier; rw [hnt, htb, hfl1 tier] at this; exact this⟩
   unfold physWriteExisting
   simp only
   have hτ := h.tiers a (by simp)
